@@ -187,7 +187,10 @@ def pushdown_dnf(
             nodes = nodes_for_predicate(predicate, sources, scope_ref_count)
 
             if table not in nodes:
-                continue
+                # every block has to restrict the table, otherwise the rows that only
+                # satisfy this block would be filtered out by the other blocks' predicates
+                conditions.pop(table, None)
+                break
 
             conditions[table] = (
                 exp.or_(conditions[table], predicate) if table in conditions else predicate
